@@ -212,6 +212,11 @@ def run_impl(case):
             res.update(status="ok", steps=calls["n"], inp=_rows(x.signal), out=_rows(y.signal), cls=type(y).__name__,
                        npol=y.n_pol, shape=list(y.signal.shape), finite=bool(np.all(np.isfinite(y.signal))),
                        in_unchanged=bool(np.array_equal(x.signal, a)))
+            if calls["n"] <= 300:
+                # the documented positional order FIBER(input, length, alpha, beta_2, beta_3, gamma, phi_max) must mean the same
+                with time_limit(120):
+                    yp = dev.FIBER(x, case["L"], case["alpha"], case["b2"], case["b3"], case["gamma"], case["phi"])
+                res["positional_same"] = bool(np.array_equal(yp.signal, y.signal))
             if case["npol"] == 2 and case["ypow"] == 0.0 and case["shape"] != "zero":
                 with time_limit(120):
                     y1 = dev.FIBER(optical_signal(a[0]), **kw)
@@ -341,6 +346,8 @@ def oracle(case, res):
     if not res["finite"]:
         v.append(("C08:non-finite", f"output contains NaN/inf {tag}"))
         return v
+    if res.get("positional_same") is False:
+        v.append(("C08:positional", f"FIBER called with the documented positional argument order differs from the keyword call {tag}"))
     fs_cfg = case["gv"]["fs"] if case.get("gv") else case["sps"] * case["R"]
     if not (abs(res["fs"] - fs_cfg) <= 1e-9 * fs_cfg):
         v.append(("C08:fs", f"gv.fs={res['fs']} but the configured sampling rate is {fs_cfg} {tag}"))
